@@ -179,3 +179,34 @@ pub fn check(plan: &Plan, rec: &RunRecord, prop: &'static str, proxy: bool, cell
     }
     out
 }
+
+/// C06: an overridden kind reaches the user's function and no generated handler; a kind that is
+/// not overridden never reaches an override function.
+pub fn check_overrides(rec: &RunRecord, reg: &crate::reg::Reg, cells: &mut Cells) -> Vec<Finding> {
+    use super::{deliveries, walk, Delivery};
+    use rt::spec::Kind;
+    let mut out = vec![];
+    for r in &rec.ops {
+        for w in [0u8, 1u8] {
+            let (ds, _) = deliveries(&r.events, w);
+            walk(&ds, &mut |d: &Delivery| {
+                let Some(kind) = Kind::from_entry(d.entry()) else { return };
+                let Some(e) = reg.get(d.cid()) else { return };
+                let enters = d.enters();
+                let ov = e.spec.overrides.contains(&kind);
+                cells.hit(format!("c06|{}|{}|{}", d.entry(), if ov { "overridden" } else { "generated" }, if d.flavour() == 0 { "mt" } else { "ep" }));
+                if ov {
+                    let want = format!("override:{}", d.entry());
+                    // the override's own message type may reject the document: then nothing runs
+                    let fine = enters.is_empty() && d.result().get("err").is_some() || (enters.len() == 1 && enters[0].0 == want);
+                    if !fine {
+                        out.push(Finding::new("C06", "c06.override_bypassed", r.idx, format!("{} overrides {} but a delivery to it ran {:?} (returned {})", d.cid(), d.entry(), enters.iter().map(|x| x.0).collect::<Vec<_>>(), d.result())));
+                    }
+                } else if enters.iter().any(|x| x.0.starts_with("override:")) {
+                    out.push(Finding::new("C06", "c06.override_leaked", r.idx, format!("{} does not override {} but a delivery to it ran {:?}", d.cid(), d.entry(), enters.iter().map(|x| x.0).collect::<Vec<_>>())));
+                }
+            });
+        }
+    }
+    out
+}
